@@ -77,6 +77,31 @@ func NewEnvAt(c *fw.Ctx, mon Monitors, base string) (*Env, error) {
 
 func (e *Env) Close() { os.RemoveAll(e.Base) }
 
+// UseRootSpelling re-creates the handler with the served directory configured
+// in a valid but non-canonical spelling (k < 0: the clean path): trailing
+// slash, doubled slash, dot segment, a detour through a sibling and back.
+// The directory served is the same; only the configuration string differs.
+func (e *Env) UseRootSpelling(k int) string {
+	dir, base := filepath.Dir(e.Root), filepath.Base(e.Root)
+	spelled := e.Root
+	name := "clean"
+	if k >= 0 {
+		switch k % 4 {
+		case 0:
+			spelled, name = e.Root+"/", "trailing-slash"
+		case 1:
+			spelled, name = dir+"//"+base, "double-slash"
+		case 2:
+			spelled, name = dir+"/./"+base, "dot-segment"
+		case 3:
+			os.MkdirAll(filepath.Join(dir, "detour"), 0755)
+			spelled, name = dir+"/detour/../"+base, "detour-and-back"
+		}
+	}
+	e.H = &webdav.Handler{FileSystem: webdav.LocalFileSystem(spelled)}
+	return name
+}
+
 // Materialise makes the directory equal to t.
 func (e *Env) Materialise(t davtree.Tree) error {
 	shape := t.Shape()
